@@ -895,9 +895,20 @@ func checkDec(rep *Reporter, e string, n int, data []byte) {
 			if read != n || len(v) != n {
 				rep.Viol("EBCDIC Decode length mismatch", line, "")
 			}
+			// the tables are bijections: what was decoded encodes back to the bytes consumed
+			if back, err := enc.Encode(v); err != nil || !bytes.Equal(back, data[:read]) {
+				rep.Viol("EBCDIC Decode returned a value that does not encode back to the bytes it consumed", line, fmt.Sprintf("value %x encodes to %x (err %v)", v, back, err))
+			}
 		case "ebcdic1047":
 			if read != n {
 				rep.Viol("EBCDIC1047 Decode read mismatch", line, "")
+			}
+			// code page 1047 is a bijection between the 256 bytes and 256 characters: n bytes
+			// decode to n characters, which encode back to the bytes consumed
+			if utf8.RuneCount(v) != n {
+				rep.Viol("EBCDIC1047 Decode returned a different number of characters than units requested", line, fmt.Sprintf("%d characters (%x) for %d units", utf8.RuneCount(v), v, n))
+			} else if back, err := enc.Encode(v); err != nil || !bytes.Equal(back, data[:read]) {
+				rep.Viol("EBCDIC1047 Decode returned a value that does not encode back to the bytes it consumed", line, fmt.Sprintf("value %x encodes to %x (err %v)", v, back, err))
 			}
 		}
 	})
